@@ -169,7 +169,13 @@ func (e *PreparedStatementsQuery) onSet(ctx context.Context, setQuery *sqlparser
 	var changedRes bool
 
 	for _, arg := range setQuery.Exprs {
-		sqlVal, ok := arg.Expr.(*sqlparser.SQLVal)
+		expr := arg.Expr
+		// _binary 'value': the introducer only tells the type of the literal (client libraries put it before binary
+		// values); the literal behind it is the value of the variable
+		if unary, ok := expr.(*sqlparser.UnaryExpr); ok && strings.TrimSpace(unary.Operator) == "_binary" {
+			expr = unary.Expr
+		}
+		sqlVal, ok := expr.(*sqlparser.SQLVal)
 		if !ok {
 			logrus.Debugln("Set Arg is not SQLVal statement")
 			continue
